@@ -42,13 +42,13 @@ theorem reg_run (f : Fac) (ops : List Op) : ∀ r : Reg, (run f r ops).reg = r.r
 
 /-- What holds for ARBITRARY factories. -/
 structure InvU (r : Reg) : Prop where
-  sorted : (r.agents.map (·.id)).Pairwise (· < ·)
+  nodup : (r.agents.map (·.id)).Nodup
   bound : ∀ a ∈ r.agents, a.id < r.next
   everSorted : r.ever.Pairwise (· < ·)
   everBound : ∀ i ∈ r.ever, i < r.next
   liveEver : ∀ a ∈ r.agents, a.id ∈ r.ever
   tmapEver : ∀ t, ∀ i ∈ r.tmap t, i ∈ r.ever
-  tmapSorted : ∀ t, (r.tmap t).Pairwise (· < ·)
+  tmapNodup : ∀ t, (r.tmap t).Nodup
   regMapped : ∀ t, r.reg t = true → r.mapped t = true
 
 /-- Registry invariant for faithful factories: additionally the type map is the per-type projection
@@ -66,13 +66,13 @@ theorem inv_init (reg : Nat → Bool) : Inv (Reg.init reg) :=
 theorem invU_create (f : Fac) (r : Reg) (k : Nat) (h : InvU r) : InvU (create f r k) := by
   constructor
   · simp only [create, List.map_append, List.map_cons, List.map_nil]
-    rw [List.pairwise_append]
-    refine ⟨h.sorted, by simp, ?_⟩
+    rw [List.nodup_append]
+    refine ⟨h.nodup, by simp, ?_⟩
     intro a ha b hb
     simp at hb; subst hb
     simp at ha
     obtain ⟨x, hx, rfl⟩ := ha
-    exact h.bound x hx
+    exact Nat.ne_of_lt (h.bound x hx)
   · intro a ha
     simp [create] at ha ⊢
     rcases ha with ha | rfl
@@ -104,12 +104,12 @@ theorem invU_create (f : Fac) (r : Reg) (k : Nat) (h : InvU r) : InvU (create f 
   · intro t
     simp only [create]
     split
-    · rw [List.pairwise_append]
-      refine ⟨h.tmapSorted t, by simp, ?_⟩
+    · rw [List.nodup_append]
+      refine ⟨h.tmapNodup t, by simp, ?_⟩
       intro a ha b hb
       simp at hb; subst hb
-      exact h.everBound a (h.tmapEver t a ha)
-    · exact h.tmapSorted t
+      exact Nat.ne_of_lt (h.everBound a (h.tmapEver t a ha))
+    · exact h.tmapNodup t
   · exact h.regMapped
 
 theorem inv_create (f : Fac) (hf : Faithful f) (r : Reg) (ty : Nat) (h : Inv r) : Inv (create f r ty) := by
@@ -179,7 +179,7 @@ theorem idsOfType_sublist (as : List Agent) (p : Agent → Bool) (t : Nat) :
 theorem invU_delete (r : Reg) (ids : List Nat) (h : InvU r) : InvU (delete r ids) := by
   constructor
   · simp only [delete]
-    exact List.Pairwise.sublist (List.Sublist.map _ List.filter_sublist) h.sorted
+    exact List.Nodup.sublist (List.Sublist.map _ List.filter_sublist) h.nodup
   · intro a ha
     simp only [delete] at ha ⊢
     exact h.bound a (List.mem_filter.mp ha).1
@@ -198,8 +198,8 @@ theorem invU_delete (r : Reg) (ids : List Nat) (h : InvU r) : InvU (delete r ids
   · intro t
     simp only [delete]
     split
-    · exact List.Pairwise.sublist (idsOfType_sublist r.agents _ t) h.sorted
-    · exact h.tmapSorted t
+    · exact List.Nodup.sublist (idsOfType_sublist r.agents _ t) h.nodup
+    · exact h.tmapNodup t
   · intro t ht
     simp only [delete]
     simp [h.regMapped t ht]
@@ -276,7 +276,7 @@ theorem setState_mem (as : List Agent) (id st : Nat) (b : Agent) (hb : b ∈ set
 theorem invU_setState (r : Reg) (id st : Nat) (h : InvU r) :
     InvU { r with agents := setState r.agents id st } := by
   constructor
-  · simp only [setState_map_id]; exact h.sorted
+  · simp only [setState_map_id]; exact h.nodup
   · intro b hb
     obtain ⟨a, ha, hae, _⟩ := setState_mem _ _ _ _ hb
     have := h.bound a ha; simp only at *; omega
@@ -286,7 +286,7 @@ theorem invU_setState (r : Reg) (id st : Nat) (h : InvU r) :
     obtain ⟨a, ha, hae, _⟩ := setState_mem _ _ _ _ hb
     have := h.liveEver a ha; simp only at *; rw [← hae]; exact this
   · exact h.tmapEver
-  · exact h.tmapSorted
+  · exact h.tmapNodup
   · exact h.regMapped
 
 theorem inv_setState (r : Reg) (id st : Nat) (h : Inv r) :
@@ -340,7 +340,7 @@ theorem pairwise_lt_nodup (l : List Nat) (h : l.Pairwise (· < ·)) : l.Nodup :=
 /-- ids are unique among live agents (any factory). -/
 theorem C14_ids_unique (reg : Nat → Bool) (f : Fac) (ops : List Op) :
     ((run f (Reg.init reg) ops).agents.map (·.id)).Nodup :=
-  pairwise_lt_nodup _ (invU_reachable reg f ops).sorted
+  (invU_reachable reg f ops).nodup
 
 /-- ids are never reused: the list of all ids ever handed out has no duplicates, and every future id
 (`next`) is larger than all of them (any factory). -/
@@ -610,7 +610,7 @@ theorem C14_partial_anyattr (reg : Nat → Bool) (f : Fac) (ops : List Op) :
   exact ⟨C14_ids_unique reg f ops, (C14_ids_never_reused reg f ops).1, (C14_ids_never_reused reg f ops).2,
     (C14_lookup reg f ops 0).2.2, fun id => (C14_lookup reg f ops id).1,
     fun id => (C14_lookup reg f ops id).2.1, hi.tmapEver,
-    fun ty => pairwise_lt_nodup _ (hi.tmapSorted ty), fun ty h => C14_mapped reg f ops ty h,
+    fun ty => hi.tmapNodup ty, fun ty h => C14_mapped reg f ops ty h,
     fun ty st => (C14_next_agent _ ty st).2.2,
     fun ty num us hm hu => randomAgents_spec r ty num us hm hu⟩
 
@@ -833,6 +833,518 @@ theorem C14_witness_delete_inplace_detail :
     agentIds r 0 = [1] ∧ r.agents = [] ∧ lookup r 1 = none ∧ countPerState ⟨true, true, false⟩ r 0 0 = none := by
   decide
 
+/-! ### Flat histories keep the lists ordered by id (re-entrant creation does not: children are registered first) -/
+
+structure SortedReg (r : Reg) : Prop where
+  agents : (r.agents.map (·.id)).Pairwise (· < ·)
+  tmap : ∀ t, (r.tmap t).Pairwise (· < ·)
+
+theorem sorted_create (f : Fac) (r : Reg) (k : Nat) (h : InvU r) (hs : SortedReg r) : SortedReg (create f r k) := by
+  constructor
+  · simp only [create, List.map_append, List.map_cons, List.map_nil]
+    rw [List.pairwise_append]
+    refine ⟨hs.agents, by simp, ?_⟩
+    intro a ha b hb
+    simp at hb; subst hb
+    simp at ha
+    obtain ⟨x, hx, rfl⟩ := ha
+    exact h.bound x hx
+  · intro t
+    simp only [create]
+    split
+    · rw [List.pairwise_append]
+      refine ⟨hs.tmap t, by simp, ?_⟩
+      intro a ha b hb
+      simp at hb; subst hb
+      exact h.everBound a (h.tmapEver t a ha)
+    · exact hs.tmap t
+
+theorem sorted_createN (f : Fac) (n : Nat) : ∀ (r : Reg) (ty : Nat), InvU r → SortedReg r → SortedReg (createN f r ty n) := by
+  induction n with
+  | zero => intro r ty _ hs; exact hs
+  | succ n ih => intro r ty h hs; exact ih _ _ (invU_create f r ty h) (sorted_create f r ty h hs)
+
+theorem sorted_createSpec (f : Fac) (spec : List (Nat × Nat)) :
+    ∀ r, InvU r → SortedReg r → SortedReg (createSpec f r spec) := by
+  induction spec with
+  | nil => intro r _ hs; exact hs
+  | cons p rest ih =>
+    intro r h hs; obtain ⟨ty, n⟩ := p
+    simp only [createSpec]; split
+    · exact ih _ (invU_createN f n r ty h) (sorted_createN f n r ty h hs)
+    · exact hs
+
+theorem sorted_step (f : Fac) (r : Reg) (op : Op) (h : InvU r) (hs : SortedReg r) : SortedReg (step f r op) := by
+  have hclear : SortedReg (clear r) := ⟨by simp [clear], by simp [clear]⟩
+  cases op with
+  | create ty => simp only [step, createOp]; split; exact sorted_create f r ty h hs; exact hs
+  | delete ids =>
+    constructor
+    · exact List.Pairwise.sublist (List.Sublist.map _ List.filter_sublist) hs.agents
+    · intro t
+      simp only [step, delete]
+      split
+      · exact List.Pairwise.sublist (idsOfType_sublist r.agents _ t) hs.agents
+      · exact hs.tmap t
+  | configure spec => exact sorted_createSpec f spec _ (invU_clear r h) hclear
+  | reset => exact hclear
+  | setState id st => exact ⟨by simp only [step, setState_map_id]; exact hs.agents, hs.tmap⟩
+  | configureAll spec => exact sorted_createSpec f spec _ (invU_clear r h) hclear
+
+/-- without re-entrant creation, `model.agents` and every per-type id list are strictly increasing in the id -/
+theorem C14_flat_sorted (reg : Nat → Bool) (f : Fac) (ops : List Op) : SortedReg (run f (Reg.init reg) ops) := by
+  have : ∀ (ops : List Op) (r : Reg), InvU r → SortedReg r → SortedReg (run f r ops) := by
+    intro ops
+    induction ops with
+    | nil => intro r _ hs; exact hs
+    | cons op rest ih => intro r h hs; exact ih _ (invU_step f r op h) (sorted_step f r op h hs)
+  exact this ops _ (invU_init reg) ⟨by simp [Reg.init], by simp [Reg.init]⟩
+
+/-! ### The clauses of `C14_full` from the invariant of ONE state -/
+
+def RegClauses (c : Cfg) (r : Reg) : Prop :=
+    (r.agents.map (·.id)).Nodup ∧ r.ever.Nodup ∧ (∀ i ∈ r.ever, i < r.next) ∧
+    (∀ a ∈ r.agents, lookup r a.id = some a) ∧
+    (∀ id a, lookup r id = some a → a ∈ r.agents ∧ a.id = id) ∧
+    (∀ ty, agentIds r ty = (liveOfType r ty).map (·.id)) ∧
+    (∀ ty, count r ty = (liveOfType r ty).length) ∧
+    (∀ ty st, r.reg ty = true → countPerState c r ty st = some (liveOfTypeState r ty st).length) ∧
+    (∀ ty, r.reg ty = true → agentIdsE r ty = some ((liveOfType r ty).map (·.id)) ∧
+                              countE r ty = some (liveOfType r ty).length) ∧
+    (∀ ty st, nextAgent r ty st = (liveOfTypeState r ty st).head?.map (·.id)) ∧
+    (∀ ty num us, r.reg ty = true → UnitDraws us →
+        ∃ l, randomAgents r ty num us = some l ∧ l.length = min num (liveOfType r ty).length ∧
+          ∀ x ∈ l, ∃ a ∈ liveOfType r ty, a.id = x)
+
+theorem clauses_of_inv (c : Cfg) (hc : c.countById = true) (r : Reg) (h : Inv r) : RegClauses c r := by
+  have hids : ∀ ty, r.tmap ty = (liveOfType r ty).map (·.id) := h.tmapOk
+  have hcnt : ∀ ty, (r.tmap ty).length = (liveOfType r ty).length := by intro ty; rw [hids]; simp
+  refine ⟨h.nodup, pairwise_lt_nodup _ h.everSorted, h.everBound,
+    fun a ha => find_of_mem_nodup _ h.nodup a ha, ?_, hids, hcnt, ?_, ?_, fun ty st => (C14_next_agent r ty st).2.2, ?_⟩
+  · intro id a hl
+    have h1 := List.mem_of_find?_eq_some hl
+    have h2 := List.find?_some hl
+    exact ⟨h1, by simpa using h2⟩
+  · intro ty st hreg
+    unfold countPerState
+    rw [if_pos (h.regMapped ty hreg), h.tmapOk ty]
+    unfold idsOfType
+    rw [fold_count c hc _ h.nodup st _ (fun a ha => (List.mem_filter.mp ha).1) 0]
+    simp [liveOfTypeState, List.filter_filter, Bool.and_comm]
+  · intro ty hreg
+    have hm := h.regMapped ty hreg
+    simp [agentIdsE, countE, hm, hids ty]
+  · intro ty num us hreg hu
+    obtain ⟨l, h1, h2, h3⟩ := randomAgents_spec r ty num us (h.regMapped ty hreg) hu
+    refine ⟨l, h1, by rw [h2, hcnt], ?_⟩
+    intro x hx
+    have := h3 x hx
+    rw [hids] at this
+    obtain ⟨a, ha, rfl⟩ := List.mem_map.mp this
+    exact ⟨a, ha, rfl⟩
+
+/-! ### Re-entrant creation (wave 6) -/
+
+/-- invariant of the creation machine: the registry invariant, plus — for every `create_agent` call that has not
+returned — its id is reserved (below `next`, handed out, different from all other pending ids) and not yet
+registered anywhere -/
+structure NInv (s : NReg) : Prop where
+  base : Inv s.r
+  pendNodup : (s.stack.map (·.id)).Nodup
+  pendBound : ∀ fr ∈ s.stack, fr.id < s.r.next
+  pendEver : ∀ fr ∈ s.stack, fr.id ∈ s.r.ever
+  pendFreshA : ∀ fr ∈ s.stack, ∀ a ∈ s.r.agents, a.id ≠ fr.id
+  pendFreshT : ∀ fr ∈ s.stack, ∀ t, fr.id ∉ s.r.tmap t
+
+theorem ninv_init (reg : Nat → Bool) : NInv (NReg.init reg) :=
+  { base := inv_init reg, pendNodup := by simp [NReg.init], pendBound := by simp [NReg.init],
+    pendEver := by simp [NReg.init], pendFreshA := by simp [NReg.init], pendFreshT := by simp [NReg.init] }
+
+theorem ninv_enter (s : NReg) (k : Nat) (h : NInv s) :
+    NInv { r := { s.r with ever := s.r.ever ++ [s.r.next], next := s.r.next + 1 }
+           stack := { id := s.r.next, key := k, inFactory := true } :: s.stack } := by
+  have hb := h.base
+  refine { base := { toInvU := ?_, tmapOk := hb.tmapOk, tyKey := hb.tyKey }, pendNodup := ?_, pendBound := ?_,
+           pendEver := ?_, pendFreshA := ?_, pendFreshT := ?_ }
+  · constructor
+    · exact hb.nodup
+    · intro a ha; have := hb.bound a ha; simp only at this ⊢; omega
+    · simp only
+      rw [List.pairwise_append]
+      refine ⟨hb.everSorted, by simp, ?_⟩
+      intro a ha b hbb
+      simp at hbb; subst hbb
+      exact hb.everBound a ha
+    · intro i hi
+      simp only [List.mem_append, List.mem_singleton] at hi ⊢
+      rcases hi with hi | rfl
+      · have := hb.everBound i hi; omega
+      · omega
+    · intro a ha; exact List.mem_append_left _ (hb.liveEver a ha)
+    · intro t i hi; exact List.mem_append_left _ (hb.tmapEver t i hi)
+    · exact hb.tmapNodup
+    · exact hb.regMapped
+  · simp only [List.map_cons, List.nodup_cons]
+    refine ⟨?_, h.pendNodup⟩
+    intro hmem
+    obtain ⟨fr, hfr, he⟩ := List.mem_map.mp hmem
+    have := h.pendBound fr hfr
+    omega
+  · intro fr hfr
+    simp only [List.mem_cons] at hfr
+    rcases hfr with rfl | hfr
+    · simp
+    · have := h.pendBound fr hfr; simp only; omega
+  · intro fr hfr
+    simp only [List.mem_cons] at hfr
+    rcases hfr with rfl | hfr
+    · simp
+    · exact List.mem_append_left _ (h.pendEver fr hfr)
+  · intro fr hfr a ha
+    simp only [List.mem_cons] at hfr
+    rcases hfr with rfl | hfr
+    · have := hb.bound a ha; simp only; omega
+    · exact h.pendFreshA fr hfr a ha
+  · intro fr hfr t
+    simp only [List.mem_cons] at hfr
+    rcases hfr with rfl | hfr
+    · intro hmem
+      have := hb.everBound _ (hb.tmapEver t _ hmem)
+      simp only at this; omega
+    · exact h.pendFreshT fr hfr t
+
+theorem ninv_facDone (s : NReg) (fr : Frame) (rest : List Frame) (hst : s.stack = fr :: rest) (h : NInv s) :
+    NInv { r := s.r, stack := { fr with inFactory := false } :: rest } := by
+  have hmem : ∀ g, g ∈ ({ fr with inFactory := false } :: rest : List Frame) → ∃ g' ∈ s.stack, g'.id = g.id := by
+    intro g hg
+    simp only [List.mem_cons] at hg
+    rcases hg with rfl | hg
+    · exact ⟨fr, by rw [hst]; simp, rfl⟩
+    · exact ⟨g, by rw [hst]; simp [hg], rfl⟩
+  refine { base := h.base, pendNodup := ?_, pendBound := ?_, pendEver := ?_, pendFreshA := ?_, pendFreshT := ?_ }
+  · have := h.pendNodup; rw [hst] at this; simpa using this
+  · intro g hg; obtain ⟨g', hg', he⟩ := hmem g hg; rw [← he]; exact h.pendBound g' hg'
+  · intro g hg; obtain ⟨g', hg', he⟩ := hmem g hg; rw [← he]; exact h.pendEver g' hg'
+  · intro g hg; obtain ⟨g', hg', he⟩ := hmem g hg; rw [← he]; exact h.pendFreshA g' hg'
+  · intro g hg; obtain ⟨g', hg', he⟩ := hmem g hg; rw [← he]; exact h.pendFreshT g' hg'
+
+theorem ninv_leave (f : Fac) (hf : Faithful f) (s : NReg) (fr : Frame) (rest : List Frame) (hst : s.stack = fr :: rest)
+    (h : NInv s) : NInv { r := register f s.r fr, stack := rest } := by
+  have hb := h.base
+  have hfr : fr ∈ s.stack := by rw [hst]; simp
+  have hrest : ∀ g ∈ rest, g ∈ s.stack := fun g hg => by rw [hst]; simp [hg]
+  have hnd := h.pendNodup
+  rw [hst] at hnd
+  simp only [List.map_cons, List.nodup_cons] at hnd
+  refine { base := { toInvU := ?_, tmapOk := ?_, tyKey := ?_ }, pendNodup := hnd.2, pendBound := ?_,
+           pendEver := ?_, pendFreshA := ?_, pendFreshT := ?_ }
+  · constructor
+    · simp only [register, List.map_append, List.map_cons, List.map_nil]
+      rw [List.nodup_append]
+      refine ⟨hb.nodup, by simp, ?_⟩
+      intro a ha b hbb
+      simp at hbb; subst hbb
+      obtain ⟨x, hx, rfl⟩ := List.mem_map.mp ha
+      exact h.pendFreshA fr hfr x hx
+    · intro a ha
+      simp only [register, List.mem_append, List.mem_singleton] at ha ⊢
+      rcases ha with ha | rfl
+      · exact hb.bound a ha
+      · exact h.pendBound fr hfr
+    · exact hb.everSorted
+    · exact hb.everBound
+    · intro a ha
+      simp only [register, List.mem_append, List.mem_singleton] at ha ⊢
+      rcases ha with ha | rfl
+      · exact hb.liveEver a ha
+      · exact h.pendEver fr hfr
+    · intro t i hi
+      simp only [register] at hi ⊢
+      split at hi
+      · rcases List.mem_append.mp hi with hi | hi
+        · exact hb.tmapEver t i hi
+        · simp at hi; subst hi; exact h.pendEver fr hfr
+      · exact hb.tmapEver t i hi
+    · intro t
+      simp only [register]
+      split
+      · rw [List.nodup_append]
+        refine ⟨hb.tmapNodup t, by simp, ?_⟩
+        intro a ha b hbb
+        simp at hbb; subst hbb
+        intro he; subst he
+        exact h.pendFreshT fr hfr t ha
+      · exact hb.tmapNodup t
+    · exact hb.regMapped
+  · intro t
+    simp only [register, idsOfType, List.filter_append, List.map_append, hf fr.key fr.id]
+    by_cases ht : t = fr.key
+    · subst ht; simp [hb.tmapOk, idsOfType]
+    · have : (fr.key == t) = false := by simp; omega
+      simp [ht, hb.tmapOk, idsOfType, this]
+  · intro a ha
+    simp only [register, List.mem_append, List.mem_singleton] at ha
+    rcases ha with ha | rfl
+    · exact hb.tyKey a ha
+    · exact hf fr.key fr.id
+  · intro g hg; exact h.pendBound g (hrest g hg)
+  · intro g hg; exact h.pendEver g (hrest g hg)
+  · intro g hg a ha
+    simp only [register, List.mem_append, List.mem_singleton] at ha
+    rcases ha with ha | rfl
+    · exact h.pendFreshA g (hrest g hg) a ha
+    · simp only
+      intro he
+      apply hnd.1
+      rw [he]
+      exact List.mem_map.mpr ⟨g, hg, rfl⟩
+  · intro g hg t
+    simp only [register]
+    split
+    · intro hmem
+      rcases List.mem_append.mp hmem with hm | hm
+      · exact h.pendFreshT g (hrest g hg) t hm
+      · simp at hm
+        apply hnd.1
+        rw [← hm]
+        exact List.mem_map.mpr ⟨g, hg, rfl⟩
+    · exact h.pendFreshT g (hrest g hg) t
+
+theorem ninv_step (n : CfgN) (hn : n.idReservedBeforeFactory = true) (f : Fac) (hf : Faithful f) (s : NReg) (t : Tok)
+    (h : NInv s) : NInv (stepN n f s t) := by
+  cases t with
+  | op o =>
+    simp only [stepN]
+    split
+    · rename_i he
+      have hnil : s.stack = [] := by simpa using he
+      exact { base := inv_step f hf s.r o h.base, pendNodup := by simp [hnil], pendBound := by simp [hnil],
+              pendEver := by simp [hnil], pendFreshA := by simp [hnil], pendFreshT := by simp [hnil] }
+    · exact h
+  | enter k =>
+    simp only [stepN]
+    split
+    · simp only [hn, bump, if_true]
+      exact ninv_enter s k h
+    · exact h
+  | facDone =>
+    simp only [stepN]
+    split
+    · rename_i fr rest hst
+      split
+      · simp only [hn, bump, Bool.not_true, Bool.false_and, Bool.false_eq_true, if_false]
+        exact ninv_facDone s fr rest hst h
+      · exact h
+    · exact h
+  | leave =>
+    simp only [stepN]
+    split
+    · rename_i fr rest hst
+      split
+      · exact h
+      · simp only [hn, bump, Bool.not_true, Bool.false_and, Bool.false_eq_true, if_false]
+        exact ninv_leave f hf s fr rest hst h
+    · exact h
+
+theorem ninv_run (n : CfgN) (hn : n.idReservedBeforeFactory = true) (f : Fac) (hf : Faithful f) (toks : List Tok) :
+    ∀ s, NInv s → NInv (runN n f s toks) := by
+  induction toks with
+  | nil => intro s h; exact h
+  | cons t rest ih => intro s h; exact ih _ (ninv_step n hn f hf s t h)
+
+theorem bump_reg (r : Reg) (b : Bool) : (bump r b).reg = r.reg := by unfold bump; split <;> rfl
+
+theorem reg_stepN (n : CfgN) (f : Fac) (s : NReg) (t : Tok) : (stepN n f s t).r.reg = s.r.reg := by
+  cases t with
+  | op o => simp only [stepN]; split; exact reg_step f s.r o; rfl
+  | enter k => simp only [stepN]; split; exact bump_reg _ _; rfl
+  | facDone =>
+    simp only [stepN]
+    split
+    · split
+      · exact bump_reg _ _
+      · rfl
+    · rfl
+  | leave =>
+    simp only [stepN]
+    split
+    · split
+      · rfl
+      · rw [bump_reg]; rfl
+    · rfl
+
+theorem reg_runN (n : CfgN) (f : Fac) (toks : List Tok) : ∀ s, (runN n f s toks).r.reg = s.r.reg := by
+  induction toks with
+  | nil => intro s; rfl
+  | cons t rest ih => intro s; simp only [runN, List.foldl_cons] at ih ⊢; rw [ih, reg_stepN]
+
+/-- **C14 with re-entrant creation**: every clause of `C14_full`, in every state the creation machine reaches —
+also in the middle of a nest of `create_agent` calls (an `initialize()` that queries the registry sees a consistent
+registry in which its own agent is not yet listed) — for every token history: any nesting depth, creations from
+factories and from `initialize()`, all other operations between them. -/
+def C14_full_nested (c : Cfg) (n : CfgN) : Prop :=
+  ∀ (reg : Nat → Bool) (f : Fac), Faithful f → ∀ toks : List Tok,
+    RegClauses c (runN n f (NReg.init reg) toks).r ∧ (runN n f (NReg.init reg) toks).r.reg = reg
+
+theorem C14_full_nested_of_good (c : Cfg) (hc : c.countById = true) (n : CfgN) (hn : n.idReservedBeforeFactory = true) :
+    C14_full_nested c n := by
+  intro reg f hf toks
+  exact ⟨clauses_of_inv c hc _ (ninv_run n hn f hf toks _ (ninv_init reg)).base, reg_runN n f toks _⟩
+
+/-! #### from `idReservedBeforeInitialize` alone: re-entrant creation from `initialize()` only
+
+The tree as it is before `fixes/C14-reserve-id-before-factory` increments between the factory call and
+`initialize()`.  As long as no factory creates agents, that machine and the good one run in lock step: they differ
+only in `next_agent_id` while a factory is running (by one). -/
+
+def midCfg : CfgN := { idReservedBeforeFactory := false, idReservedBeforeInitialize := true }
+def goodCfg : CfgN := { idReservedBeforeFactory := true, idReservedBeforeInitialize := true }
+
+structure Sim (sm sg : NReg) : Prop where
+  stack : sm.stack = sg.stack
+  reg : sg.r = { sm.r with next := sm.r.next + (if topInFactory sm then 1 else 0) }
+  below : ∀ fr ∈ sm.stack.tail, fr.inFactory = false
+
+theorem sim_step (f : Fac) (sm sg : NReg) (t : Tok) (h : Sim sm sg)
+    (hfree : facNestFree midCfg f sm [t] = true) : Sim (stepN midCfg f sm t) (stepN goodCfg f sg t) := by
+  obtain ⟨hst, hreg, hbelow⟩ := h
+  cases t with
+  | op o =>
+    simp only [stepN, ← hst]
+    cases hs : sm.stack with
+    | nil =>
+      have : sg.r = sm.r := by rw [hreg]; simp [topInFactory, hs]
+      simp only [List.isEmpty_nil, if_true]
+      exact ⟨by simp [hs, ← hst], by simp [this, topInFactory, hs], by simp [hs]⟩
+    | cons fr rest =>
+      simp only [List.isEmpty_cons, Bool.false_eq_true, if_false]
+      exact ⟨hst, hreg, hbelow⟩
+  | enter k =>
+    have hrk : sg.r.reg = sm.r.reg := by rw [hreg]
+    simp only [stepN, hrk]
+    cases hk : sm.r.reg k with
+    | false => simp only [Bool.false_eq_true, if_false]; exact ⟨hst, hreg, hbelow⟩
+    | true =>
+      simp only [if_true]
+      have htop : topInFactory sm = false := by
+        simp only [facNestFree, hk, Bool.not_true, Bool.false_or, Bool.and_true] at hfree
+        unfold topInFactory
+        cases hs : sm.stack with
+        | nil => rfl
+        | cons fr rest => rw [hs] at hfree; simpa using hfree
+      have hr : sg.r = sm.r := by rw [hreg, htop]; simp
+      refine ⟨by simp [hst, hr], ?_, ?_⟩
+      · simp [hr, bump, midCfg, goodCfg, topInFactory]
+      · intro fr hfr
+        simp only [List.tail_cons] at hfr
+        cases hs : sm.stack with
+        | nil => rw [hs] at hfr; simp at hfr
+        | cons g rest =>
+          rw [hs] at hfr
+          rcases List.mem_cons.mp hfr with rfl | hfr'
+          · simpa [topInFactory, hs] using htop
+          · exact hbelow fr (by rw [hs]; simpa using hfr')
+  | facDone =>
+    simp only [stepN, ← hst]
+    cases hs : sm.stack with
+    | nil => simp only; exact ⟨hst, hreg, hbelow⟩
+    | cons fr rest =>
+      simp only
+      cases hin : fr.inFactory with
+      | false => simp only [Bool.false_eq_true, if_false]; exact ⟨hst, hreg, hbelow⟩
+      | true =>
+        simp only [if_true]
+        refine ⟨rfl, ?_, ?_⟩
+        · rw [hreg]; simp [bump, midCfg, goodCfg, topInFactory, hs, hin]
+        · intro g hg; exact hbelow g (by rw [hs]; simpa using hg)
+  | leave =>
+    simp only [stepN, ← hst]
+    cases hs : sm.stack with
+    | nil => simp only; exact ⟨hst, hreg, hbelow⟩
+    | cons fr rest =>
+      simp only
+      cases hin : fr.inFactory with
+      | true => simp only [if_true]; exact ⟨hst, hreg, hbelow⟩
+      | false =>
+        simp only [Bool.false_eq_true, if_false]
+        have hr : sg.r = sm.r := by rw [hreg]; simp [topInFactory, hs, hin]
+        have htop' : topInFactory { r := register f sm.r fr, stack := rest } = false := by
+          unfold topInFactory
+          cases hr' : rest with
+          | nil => rfl
+          | cons g rest' => exact hbelow g (by rw [hs, hr']; simp)
+        refine ⟨rfl, ?_, ?_⟩
+        · simp only [bump, midCfg, goodCfg, Bool.not_false, Bool.not_true, Bool.and_false, Bool.false_and,
+            Bool.false_eq_true, if_false]
+          rw [hr]
+          have : topInFactory { r := register f sm.r fr, stack := rest } = false := htop'
+          simp [this]
+        · intro g hg
+          apply hbelow g
+          rw [hs]
+          simp only [List.tail_cons]
+          exact List.mem_of_mem_tail hg
+
+theorem sim_run (f : Fac) (toks : List Tok) : ∀ sm sg, Sim sm sg → facNestFree midCfg f sm toks = true →
+    Sim (runN midCfg f sm toks) (runN goodCfg f sg toks) := by
+  induction toks with
+  | nil => intro sm sg h _; exact h
+  | cons t rest ih =>
+    intro sm sg h hfree
+    simp only [facNestFree, Bool.and_eq_true] at hfree
+    apply ih _ _ (sim_step f sm sg t h (by simp only [facNestFree, Bool.and_eq_true]; exact ⟨hfree.1, trivial⟩)) hfree.2
+
+/-- **From `idReservedBeforeInitialize` alone** (the increment sits between the factory call and `initialize()`):
+for every token history in which no factory creates agents, whenever no factory is running the registry is the
+one of the good machine — every clause of `C14_full` holds (re-entrant creation from `initialize()`, any depth). -/
+theorem C14_full_nested_init_only (c : Cfg) (hc : c.countById = true) (reg : Nat → Bool) (f : Fac) (hf : Faithful f)
+    (toks : List Tok) (hfree : facNestFree midCfg f (NReg.init reg) toks = true)
+    (htop : topInFactory (runN midCfg f (NReg.init reg) toks) = false) :
+    RegClauses c (runN midCfg f (NReg.init reg) toks).r := by
+  have hs : Sim (NReg.init reg) (NReg.init reg) := ⟨rfl, by simp [NReg.init, topInFactory], by simp [NReg.init]⟩
+  obtain ⟨_, hreg, _⟩ := sim_run f toks _ _ hs hfree
+  rw [htop] at hreg
+  have : (runN goodCfg f (NReg.init reg) toks).r = (runN midCfg f (NReg.init reg) toks).r := by rw [hreg]; simp
+  rw [← this]
+  exact (C14_full_nested_of_good c hc goodCfg rfl reg f hf toks).1
+
+/-- a plain `create_agent` is the token sequence enter, facDone, leave -/
+theorem create_as_tokens (n : CfgN) (hn : n.idReservedBeforeFactory = true) (f : Fac) (r : Reg) (k : Nat)
+    (hk : r.reg k = true) :
+    (runN n f { r := r, stack := [] } [.enter k, .facDone, .leave]).r = create f r k := by
+  simp [runN, stepN, hk, hn, bump, register, create]
+
+/-- `C14_full` is the special case without nesting -/
+theorem runN_ops (n : CfgN) (f : Fac) (ops : List Op) :
+    ∀ r, runN n f { r := r, stack := [] } (ops.map Tok.op) = { r := run f r ops, stack := [] } := by
+  induction ops with
+  | nil => intro r; rfl
+  | cons o rest ih => intro r; simp only [List.map_cons, runN, List.foldl_cons, stepN, run] at ih ⊢; exact ih _
+
+/-- Witness (kernel-checked): when `next_agent_id` is not incremented before the FACTORY is called, a factory that
+creates an agent hands the same id out twice — whatever happens later (`idReservedBeforeInitialize` or not). -/
+theorem C14_witness_nested_factory (c : Cfg) (n : CfgN) (hn : n.idReservedBeforeFactory = false) :
+    ¬ C14_full_nested c n := by
+  intro h
+  have := (h reg2 Fac.id faithful_id [.enter 0, .enter 1, .facDone, .leave, .facDone, .leave]).1.1
+  obtain ⟨a, b⟩ := n; simp only at hn; subst hn
+  revert this; cases b <;> decide
+
+/-- Witness (kernel-checked): when it is incremented only after the registration, an `initialize()` that creates an
+agent hands the same id out twice: `agents` = [child 0, parent 0]. -/
+theorem C14_witness_nested_late (c : Cfg) (n : CfgN) (h0 : n.idReservedBeforeFactory = false)
+    (h1 : n.idReservedBeforeInitialize = false) : ¬ C14_full_nested c n := by
+  intro h
+  have := (h reg2 Fac.id faithful_id [.enter 0, .facDone, .enter 1, .facDone, .leave, .leave]).1.1
+  obtain ⟨a, b⟩ := n; simp only at h0 h1; subst h0; subst h1
+  revert this; decide
+
+/-- registration order under nesting (good configuration): a firm (key 0) whose `initialize()` creates two workers
+(key 1): ids firm 0, workers 1 and 2; `agents` lists the workers first; per-type lists `[0]` and `[1, 2]`. -/
+example : let r := (runN ⟨true, true⟩ Fac.id (NReg.init reg2)
+      [.enter 0, .facDone, .enter 1, .facDone, .leave, .enter 1, .facDone, .leave, .leave]).r
+    r.agents.map (·.id) = [1, 2, 0] ∧ agentIds r 0 = [0] ∧ agentIds r 1 = [1, 2] ∧ r.next = 3 := by decide
+
 /-- Non-vacuity: a history with all operation kinds; the per-state counts are the expected numbers. -/
 example : countPerState ⟨true, true, true⟩ (run Fac.id (Reg.init reg2)
     [.create 0, .create 1, .create 0, .delete [0], .setState 2 5, .configure [(0, 2), (1, 1)],
@@ -864,5 +1376,13 @@ example : randomAgents (run Fac.id (Reg.init reg2)
 #print axioms C14_delete_own_ids
 #print axioms C14_witness_delete_inplace
 #print axioms C14_witness_delete_inplace_detail
+#print axioms C14_flat_sorted
+#print axioms clauses_of_inv
+#print axioms C14_full_nested_of_good
+#print axioms C14_full_nested_init_only
+#print axioms create_as_tokens
+#print axioms runN_ops
+#print axioms C14_witness_nested_factory
+#print axioms C14_witness_nested_late
 
 end Bptk.C14
